@@ -587,7 +587,10 @@ def cmp_outcomes(o1, o2):
     if o1[0] != o2[0]:
         if o1[0] == "ok":
             return ("set-up works on the saved object but raises %s in %s on the loaded one" % o2[1], "%s@%s" % o2[1])
-        return ("set-up raises %s in %s on the saved object but works on the loaded one" % o1[1], "%s@%s" % o1[1])
+        # The saved object cannot be set up on this probe at all (e.g. a zoneinfo date that pandas refuses to mix with
+        # its own zone objects) while the loaded one - normalised by the constructors - can: nothing that could be
+        # optimised before is lost, and there is no problem of the original to be identical to.  Counted, not charged.
+        return None
     if o1[0] == "raise":
         if o1[1][0] != o2[1][0]:
             return ("saved object raises %s, loaded object raises %s" % (o1[1][0], o2[1][0]), "exc-type")
